@@ -2268,6 +2268,8 @@ class BindParameter(roles.InElementRole, KeyedColumnElement[_T]):
                 else self.key
             ),
             self.literal_execute,
+            self.expanding,
+            self.isoutparam,
         )
 
     def _convert_to_unique(self):
